@@ -487,7 +487,8 @@ def build(prog):
     del _STRATS[:]
     try:
         t0, t1, h = (num(x) for x in prog["times"])
-        m = CompartmentalModel([t0, t1], list(prog["comps"]), list(prog["inf"]), timestep=h)
+        # (inf_bare: the infectious compartment(s) given as ONE bare string, which the constructor takes as one name)
+        m = CompartmentalModel([t0, t1], list(prog["comps"]), prog["inf"][0] if prog.get("inf_bare") else list(prog["inf"]), timestep=h)
     except (KeyboardInterrupt, SystemExit, ObservationTimeLimit):
         raise
     except BaseException as e:  # noqa
